@@ -227,7 +227,7 @@ func runProperty(prop, tier, only string, seed, workers int, verbose, noReplay b
 	}
 
 	if len(t3specs) > 0 {
-		if err := runT3Dump(verbose); err != nil {
+		if err := runT3Dump(verbose, t3specs); err != nil {
 			fmt.Fprintln(os.Stderr, "BROKEN:", err)
 			return 2
 		}
